@@ -81,7 +81,17 @@ class C08(Prop):
         for k, (t, (sk, n)) in enumerate(itertools.product(traits, SHAPES)):
             if n >= 2:
                 plans.append((t, (sk, n), 'attr' if k % 2 else 'derive', (n - 1 - (k % 2 if n >= 3 else 0), k % 3)))
+        # explicit bound(...) lists on the trait entry / shared by the list (with and without `..`): they change the
+        # where-clause only, never which fields take part
+        for k, (t, (sk, n)) in enumerate(itertools.product(traits, SHAPES)):
+            if n >= 1 and (k + n) % 2 == 0:
+                plans.append((t, (sk, n), 'attr' if k % 2 else 'derive', ('list', k % 4)))
         for (tr, kind, f, sym), (sk, n), mode, fattr in plans:
+            larg, lshared = None, None
+            if fattr is not None and fattr[0] == 'list':
+                larg = [([], False), None, ([sx.B_DOTS], False), None][fattr[1]]
+                lshared = [None, [], None, [sx.b_pred(sx.wty(sx.tid('u8'), [sx.tb_trait(['Copy'])]))]][fattr[1]]
+                fattr = None
             def fa(i):
                 if fattr is None or fattr[0] != i:
                     return []
@@ -90,10 +100,10 @@ class C08(Prop):
             fs = [sx.field(MT, name=('f%d' % i) if sk == 'named' else None, attrs=fa(i)) for i in range(n)]
             body = sx.named(fs) if sk == 'named' else (sx.unnamed(fs) if sk == 'tuple' else sx.UNIT)
             it = sx.struct('X', body)
-            tl = [(tr, None)]
-            req = sx.inv_attr(sx.dx(tl), it) if mode == 'attr' else sx.inv_derive(
-                '(struct (' + sx.a_derive_ex(sx.dx(tl)) + ' ' + it[len('(struct ('):])
-            out.append((req, dict(features=(tr, sk + str(n), mode, 'field-helper@%d' % fattr[0] if fattr else 'plain'), trait=tr, kind=kind, fn=f, sym=sym, shape=(sk, n),
+            tl = [(tr, larg)]
+            req = sx.inv_attr(sx.dx(tl, bnd=lshared), it) if mode == 'attr' else sx.inv_derive(
+                '(struct (' + sx.a_derive_ex(sx.dx(tl, bnd=lshared)) + ' ' + it[len('(struct ('):])
+            out.append((req, dict(features=(tr, sk + str(n), mode, 'field-helper@%d' % fattr[0] if fattr else ('list-bound' if (larg or lshared is not None) else 'plain')), trait=tr, kind=kind, fn=f, sym=sym, shape=(sk, n),
                                   nontrivial=n > 0)))
         return out
 
@@ -105,7 +115,7 @@ class C08(Prop):
             head = ('#[::derive_ex::derive_ex(%s)]\n' % r.attr) if r.mode == 'A' else '#[derive(::derive_ex::Ex)]\n'
             sk, n = m['shape']
             a, b = val(sk, n, 'a'), val(sk, n, 'b')
-            src = ['#[derive(Debug, Clone, PartialEq)]\n' + head + r.item, 'pub fn run() {',
+            src = [l2.decl('#[derive(Debug, Clone, PartialEq)]\n' + head, r.item, r.cid), 'pub fn run() {',
                    '    let a0 = %s; let b0 = %s;' % (a, b)]
             exp = []
             sym = m['sym']
